@@ -1,5 +1,6 @@
 mod campaign;
 mod check;
+mod entropy;
 mod replay;
 mod rng;
 mod script;
@@ -54,6 +55,11 @@ pub fn base_cfg(property: &str, tier: &str) -> CampaignCfg {
 fn main() {
     unsafe { std::env::set_var("RUST_BACKTRACE", "0") };
     sim::install_quiet_panic_hook();
+    // Warm-up world on the main thread: process-global lazily seeded state
+    // (hashers in dependencies) is initialised here from fixed entropy, before
+    // any seeded world runs.
+    entropy::set_entropy(0);
+    let _ = run_scenario(&Scenario::single(vec![Stmt::new("SELECT 1")]), Chooser::replaying(vec![]), None);
     let args: Vec<String> = std::env::args().collect();
     let code = match args.get(1).map(|s| s.as_str()) {
         Some("sql") => {
@@ -65,6 +71,7 @@ fn main() {
             let tier = args.get(3).cloned().unwrap_or_else(|| "quick".into());
             check::dispatch(&prop, &tier)
         }
+        Some("selftest-determinism") => check::selftest_determinism(args.get(2).and_then(|s| s.parse().ok()).unwrap_or(300)),
         Some("replay") => check::replay_file(args.get(2).map(|s| s.as_str()).unwrap_or("")),
         _ => {
             eprintln!("usage: glaresim sql <stmt>... | check <property> <tier> | replay <file>");
